@@ -43,13 +43,14 @@ pub struct ClientResult {
 }
 
 /// closed-loop client: one outstanding request at a time on its own socket
-fn client_loop(id: usize, port: u16, pk: Vec<u8>, srv: Vec<u8>, seed: u64, nreq: usize, stop: Arc<AtomicBool>, reply_timeout: Duration) -> ClientResult {
+fn client_loop(id: usize, port: u16, pk: Vec<u8>, srv: Vec<u8>, seed: u64, nreq: usize, stop: Arc<AtomicBool>, reply_timeout: Duration, think_extra_us: u64) -> ClientResult {
     let mut rng = Rng::new(seed);
     let sock = UdpSocket::bind("127.0.0.1:0").unwrap();
     let addr: SocketAddr = format!("127.0.0.1:{}", port).parse().unwrap();
     sock.set_read_timeout(Some(reply_timeout)).unwrap();
-    let mut events = Vec::with_capacity(nreq);
+    let mut events = Vec::with_capacity(nreq.min(100_000));
     let mut buf = vec![0u8; 4096];
+    let mut misses = 0;
     for seq in 0..nreq {
         if stop.load(Ordering::Relaxed) {
             break;
@@ -70,9 +71,18 @@ fn client_loop(id: usize, port: u16, pk: Vec<u8>, srv: Vec<u8>, seed: u64, nreq:
                     Err(e) => events.push(Event { client: id, seq, proto, outcome: Outcome::Invalid(e), online_pk: vec![], srep_hash: 0, rtt_us: 0 }),
                 }
             }
-            Err(_) => events.push(Event { client: id, seq, proto, outcome: Outcome::NoReply, online_pk: vec![], srep_hash: 0, rtt_us: 0 }),
+            Err(_) => {
+                events.push(Event { client: id, seq, proto, outcome: Outcome::NoReply, online_pk: vec![], srep_hash: 0, rtt_us: 0 });
+                misses += 1;
+                // a dead worker would cost reply_timeout per request: three in a row is enough evidence
+                if misses >= 3 {
+                    break;
+                }
+                continue;
+            }
         }
-        let think = rng.below(200);
+        misses = 0;
+        let think = rng.below(200) + think_extra_us;
         if think > 0 {
             std::thread::sleep(Duration::from_micros(think));
         }
@@ -80,7 +90,8 @@ fn client_loop(id: usize, port: u16, pk: Vec<u8>, srv: Vec<u8>, seed: u64, nreq:
     // anything still arriving is a second reply to some request
     sock.set_read_timeout(Some(Duration::from_millis(120))).unwrap();
     let mut extra = 0;
-    while sock.recv_from(&mut buf).is_ok() {
+    let t_drain = Instant::now();
+    while extra < 1000 && t_drain.elapsed() < Duration::from_secs(2) && sock.recv_from(&mut buf).is_ok() {
         extra += 1;
     }
     ClientResult { events, extra_datagrams: extra }
@@ -141,21 +152,65 @@ fn c18_round(ctx: &Ctx, out: &mut Out, rng: &mut Rng, k: u64) {
     cfg.num_workers = Some(nworkers);
     cfg.batch_size = Some(*rng.pick(&[1u32, 8, 64]));
     cfg.via_env = k % 2 == 1 && pin.is_none();
+    // every fourth round: per-client statistics with the fastest status interval (the workers
+    // publish to the shared queue every 100 ms, the reporter drains once a second)
+    let stats_round = k % 4 == 3;
+    if stats_round {
+        let dir = ctx.scratch.join("persist18");
+        std::fs::create_dir_all(&dir).ok();
+        cfg.client_stats = Some("on".into());
+        cfg.persistence_directory = Some(dir);
+        cfg.status_interval = Some(1);
+        out.obs("rounds_with_client_stats", 1);
+    }
     let Some(mut sp) = start_server(ctx, out, &cfg, &format!("c18-{}", k), pin) else { return };
     let port = sp.cfg.port;
     let drops0 = udp_drops(port).unwrap_or(0);
     let per_client = if ctx.thorough { rng.range(50, 500) as usize } else { rng.range(50, 200) as usize };
     let per_client = if nclients >= 64 { per_client.min(120) } else { per_client };
     let per_client = if ctx.mode == "tsan" { per_client.min(80) } else if ctx.mode == "valgrind" { per_client.min(10) } else { per_client };
+    // stats rounds must span several publish/drain cycles: think time stretches them to >= 2 s
+    let per_client = if stats_round { per_client.max(400) } else { per_client };
     let stop = Arc::new(AtomicBool::new(false));
+    // a valid request with UDP source port 0 now and then: the reply to it cannot be sent, which
+    // must not cost anybody else their reply
+    let spoof_stop = Arc::new(AtomicBool::new(false));
+    let spoofer = if k % 3 == 1 {
+        crate::inproc::RawUdp::new().map(|raw| {
+            let st = spoof_stop.clone();
+            let s0 = rng.next_u64();
+            let sv = srv.clone();
+            out.obs("rounds_with_port0_spoofer", 1);
+            std::thread::spawn(move || {
+                let mut r = Rng::new(s0);
+                let addr: SocketAddr = format!("127.0.0.1:{}", port).parse().unwrap();
+                let mut n = 0u64;
+                while !st.load(Ordering::Relaxed) {
+                    let proto = if r.chance(1, 2) { Proto::Classic } else { Proto::Ietf };
+                    let (pkt, _) = make_request(&mut r, proto, Some(&sv));
+                    raw.send_from_port(0, addr, &pkt);
+                    n += 1;
+                    std::thread::sleep(Duration::from_micros(300 + r.below(700)));
+                }
+                n
+            })
+        })
+    } else {
+        None
+    };
+    let think_extra: u64 = if stats_round { 5_000 } else { 0 };
     let handles: Vec<_> = (0..nclients)
         .map(|i| {
             let (pk, srv, stop) = (pk.clone(), srv.clone(), stop.clone());
             let s = rng.next_u64();
-            std::thread::spawn(move || client_loop(i, port, pk, srv, s, per_client, stop, Duration::from_secs(5)))
+            std::thread::spawn(move || client_loop(i, port, pk, srv, s, per_client, stop, Duration::from_secs(5), think_extra))
         })
         .collect();
     let results: Vec<ClientResult> = handles.into_iter().map(|h| h.join().unwrap()).collect();
+    spoof_stop.store(true, Ordering::Relaxed);
+    if let Some(h) = spoofer {
+        out.obs("port0_requests_spoofed", h.join().unwrap_or(0) as i64);
+    }
     // open-loop burst on a quiet server: one socket sends 80 requests back to back (more than one
     // process_events call may answer when batch_size is 1), reads nothing meanwhile, then waits
     let burst_missing = {
@@ -337,9 +392,15 @@ enum Phase {
     Idle,
     ClosedLoop,
     Flood,
+    /// nothing at all for half a minute (default status interval), then the signal
+    LongIdle,
 }
 
 fn c19_run(ctx: &Ctx, out: &mut Out, rng: &mut Rng, k: u64) {
+    c19_run_phase(ctx, out, rng, k, None)
+}
+
+fn c19_run_phase(ctx: &Ctx, out: &mut Out, rng: &mut Rng, k: u64, force: Option<Phase>) {
     let seed = rng.bytes(32);
     let pk = RefKey::from_seed(&seed).public();
     let srv = srv_value(&pk);
@@ -347,11 +408,12 @@ fn c19_run(ctx: &Ctx, out: &mut Out, rng: &mut Rng, k: u64) {
     let signame = if sig == libc::SIGINT { "INT" } else { "TERM" };
     let nworkers = [1u32, 4, 16][((k / 2) % 3) as usize];
     let stats_on = (k / 6) % 2 == 1;
-    let phase = [Phase::Idle, Phase::ClosedLoop, Phase::Flood][((k / 12) % 3) as usize];
-    let delay_us = rng.below(300_000);
+    let phase = force.unwrap_or([Phase::Idle, Phase::ClosedLoop, Phase::Flood][((k / 12) % 3) as usize]);
+    let stats_on = stats_on && phase != Phase::LongIdle;
+    let delay_us = if phase == Phase::LongIdle { rng.range(30_000_000, if ctx.thorough { 90_000_000 } else { 34_000_000 }) } else { rng.below(300_000) };
     let mut cfg = SrvCfg::new(0, &seed);
     cfg.num_workers = Some(nworkers);
-    cfg.batch_size = Some(*rng.pick(&[1u32, 64]));
+    cfg.batch_size = Some(if rng.chance(1, 2) { *rng.pick(&[1u32, 64]) } else { rng.range(1, 64) as u32 });
     if stats_on {
         cfg.client_stats = Some("on".into());
         let d = ctx.scratch.join("persist19");
@@ -367,12 +429,12 @@ fn c19_run(ctx: &Ctx, out: &mut Out, rng: &mut Rng, k: u64) {
     let mut client_handles = Vec::new();
     let mut flood_handles = Vec::new();
     match phase {
-        Phase::Idle => {}
+        Phase::Idle | Phase::LongIdle => {}
         Phase::ClosedLoop => {
             for i in 0..16 {
                 let (pk, srv, stop) = (pk.clone(), srv.clone(), stop.clone());
                 let s = rng.next_u64();
-                client_handles.push(std::thread::spawn(move || client_loop(i, port, pk, srv, s, 1_000_000, stop, Duration::from_millis(300))));
+                client_handles.push(std::thread::spawn(move || client_loop(i, port, pk, srv, s, 1_000_000, stop, Duration::from_millis(300), 0)));
             }
         }
         Phase::Flood => {
@@ -385,7 +447,10 @@ fn c19_run(ctx: &Ctx, out: &mut Out, rng: &mut Rng, k: u64) {
                     let sock = UdpSocket::bind("127.0.0.1:0").unwrap();
                     sock.set_nonblocking(true).unwrap();
                     let addr: SocketAddr = format!("127.0.0.1:{}", port).parse().unwrap();
-                    let pkts: Vec<Vec<u8>> = (0..32).map(|j| make_request(&mut rng, if j % 2 == 0 { Proto::Classic } else { Proto::Ietf }, Some(&srv)).0).collect();
+                    // mostly valid requests, some datagrams the server must drop
+                    let pkts: Vec<Vec<u8>> = (0..32)
+                        .map(|j| if j % 8 == 7 { crate::dgen::hostile(&mut rng, &srv).data } else { make_request(&mut rng, if j % 2 == 0 { Proto::Classic } else { Proto::Ietf }, Some(&srv)).0 })
+                        .collect();
                     let mut buf = vec![0u8; 4096];
                     let mut n = 0u64;
                     while !stop.load(Ordering::Relaxed) {
@@ -487,6 +552,10 @@ pub fn run_c19(ctx: &Ctx, out: &mut Out) {
     if ctx.replay.is_some() {
         out.note("C19 replay re-runs signal runs with the same parameters (the instant cannot be replayed exactly)");
     }
+    // one long-idle run per check in quick (shard 0, before anything else), several in thorough
+    if ctx.shard == 0 || (ctx.thorough && ctx.shard < 4) {
+        c19_run_phase(ctx, out, &mut rng, 1000 + ctx.shard, Some(Phase::LongIdle));
+    }
     let n = ctx.share(72, 1_080);
     for i in 0..n {
         // interleave so that every shard sees every phase/signal/worker combination over time
@@ -496,6 +565,7 @@ pub fn run_c19(ctx: &Ctx, out: &mut Out) {
             break;
         }
     }
+    out.floor("phase_LongIdle", 1);
     out.floor("signal_runs", 20);
     out.floor("phase_Idle", 1);
     out.floor("phase_ClosedLoop", 1);
